@@ -25,7 +25,8 @@ pub fn def() -> PropDef {
                destructor while the thread unwinds; i64 payloads with capturing closures or zero-sized \
                payloads with stateless fn items counted through a thread-local; plain or inside 1500 active \
                continuations of the combinators; at one stack position or shallow / 4 MiB deeper / shallow on one \
-               thread), once more while 300 threads are parked inside continuations, plus proptest-drawn payloads; a case is \
+               thread), once more while 300 threads are parked inside continuations, 2^32+1000 evaluations of each closure-taking \
+               Parsed combinator on one thread, 160-fold nesting around 64 KiB payloads, plus proptest-drawn payloads; a case is \
                non-trivial when the combinator takes a closure, so that its (non-)invocation and \
                argument are observable; distinct = distinct (combinator, \
                input, continuation, payloads)",
@@ -687,6 +688,139 @@ pub fn check_concurrent(k: &Case, obs: &mut Obs) -> CheckResult {
     Ok(())
 }
 
+// ---- long runs and large payloads --------------------------------------------------------------
+
+/// More than 2^32 evaluations of one combinator on one thread (a per-thread or global counter of
+/// 32 bits inside the library would wrap), or deep nesting with 64 KiB payloads held by value.
+#[derive(Serialize, Deserialize, Clone, Debug, PartialEq, Eq, Hash)]
+pub struct LongRun {
+    /// 0 or_parse, 1 or_always_parse, 2 and_then, 3 and_also, 4 and_do, 5 map, 6 or_give_up, 7 map_err
+    pub kind: u8,
+    /// Number of evaluations; 0: instead nest 160 continuations of combinator `kind` (2..=5 and the
+    /// two ResultExt methods as 8, 9) around values of 64 KiB.
+    pub iterations: u64,
+}
+
+struct Big([u8; 65536]);
+
+fn nest_big(depth: usize, kind: u8, bad: &mut Option<String>) {
+    if depth == 0 {
+        return;
+    }
+    let tag = (depth % 251) as u8;
+    let v = Big([tag; 65536]);
+    let mut calls = 0u32;
+    let out: Option<Big> = match kind {
+        2 => match Parsed::<Big, i64>::Res(Ok(v)).and_then(|mut b| {
+            calls += 1;
+            nest_big(depth - 1, kind, bad);
+            b.0[7] = b.0[7].wrapping_add(1);
+            Ok(b)
+        }) {
+            Parsed::Res(Ok(b)) => Some(b),
+            _ => None,
+        },
+        3 => match Parsed::<Big, i64>::Res(Ok(v)).and_also(|b| {
+            calls += 1;
+            nest_big(depth - 1, kind, bad);
+            b.0[7] = b.0[7].wrapping_add(1);
+            Ok(())
+        }) {
+            Parsed::Res(Ok(b)) => Some(b),
+            _ => None,
+        },
+        4 => match Parsed::<Big, i64>::Res(Ok(v)).and_do(|b| {
+            calls += 1;
+            nest_big(depth - 1, kind, bad);
+            b.0[7] = b.0[7].wrapping_add(1);
+        }) {
+            Parsed::Res(Ok(b)) => Some(b),
+            _ => None,
+        },
+        5 => match Parsed::<Big, i64>::Res(Ok(v)).map(|mut b| {
+            calls += 1;
+            nest_big(depth - 1, kind, bad);
+            b.0[7] = b.0[7].wrapping_add(1);
+            b
+        }) {
+            Parsed::Res(Ok(b)) => Some(b),
+            _ => None,
+        },
+        8 => ResultExt::and_also(Ok::<Big, i64>(v), |b| {
+            calls += 1;
+            nest_big(depth - 1, kind, bad);
+            b.0[7] = b.0[7].wrapping_add(1);
+            Ok(())
+        })
+        .ok(),
+        _ => ResultExt::and_do(Ok::<Big, i64>(v), |b| {
+            calls += 1;
+            nest_big(depth - 1, kind, bad);
+            b.0[7] = b.0[7].wrapping_add(1);
+        })
+        .ok(),
+    };
+    let fine = matches!(&out, Some(b) if b.0[7] == tag.wrapping_add(1) && b.0[65535] == tag) && calls == 1;
+    if !fine && bad.is_none() {
+        *bad = Some(format!(
+            "nesting level {depth} with a 64 KiB payload: success kept with the continuation's modification: {}, continuation invoked {calls} time(s)",
+            matches!(&out, Some(b) if b.0[7] == tag.wrapping_add(1))
+        ));
+    }
+}
+
+pub fn check_long_run(c: &LongRun, obs: &mut Obs) -> CheckResult {
+    use std::hint::black_box;
+    obs.nontrivial();
+    if c.iterations == 0 {
+        obs.class("large-payload-nesting");
+        let kind = c.kind;
+        let bad = std::thread::Builder::new()
+            .stack_size(512 << 20)
+            .spawn(move || {
+                let mut bad = None;
+                nest_big(160, kind, &mut bad);
+                bad
+            })
+            .map_err(|e| crate::engine::Failure::new("C15:long-run:spawn", e.to_string()))?
+            .join()
+            .map_err(|p| crate::engine::Failure::new(format!("C15:big-payload:{}:panic", c.kind), crate::engine::panic_message(&p)))?;
+        if let Some(b) = bad {
+            fail!(format!("C15:big-payload:{}", c.kind), "combinator kind {}: {b}", c.kind);
+        }
+        return Ok(());
+    }
+    obs.class("evaluations>2^32");
+    let n = c.iterations;
+    let mut calls = 0u64;
+    let mut wrong = 0u64;
+    for i in 0..n {
+        let x = black_box(i as i64);
+        let ok = match c.kind % 8 {
+            0 => Parsed::<i64, i64>::Fallthrough.or_parse(|| { calls += 1; Parsed::Res(Ok(x)) }) == Parsed::Res(Ok(x)),
+            1 => Parsed::<i64, i64>::Fallthrough.or_always_parse(|| { calls += 1; Ok(x) }) == Ok(x),
+            2 => Parsed::<i64, i64>::Res(Ok(x)).and_then(|v| { calls += 1; Ok(v ^ 1) }) == Parsed::Res(Ok(x ^ 1)),
+            3 => Parsed::<i64, i64>::Res(Ok(x)).and_also(|v| { calls += 1; *v ^= 1; Ok(()) }) == Parsed::Res(Ok(x ^ 1)),
+            4 => Parsed::<i64, i64>::Res(Ok(x)).and_do(|v| { calls += 1; *v ^= 1; }) == Parsed::Res(Ok(x ^ 1)),
+            5 => Parsed::<i64, i64>::Res(Ok(x)).map(|v| { calls += 1; v ^ 1 }) == Parsed::Res(Ok(x ^ 1)),
+            6 => Parsed::<i64, i64>::Fallthrough.or_give_up(|| { calls += 1; x }) == Err(x),
+            _ => Parsed::<i64, i64>::Res(Err(x)).map_err(|e| { calls += 1; e ^ 1 }) == Parsed::Res(Err(x ^ 1)),
+        };
+        wrong += !black_box(ok) as u64;
+    }
+    if wrong != 0 || calls != n {
+        fail!(
+            format!("C15:long-run:{}", c.kind % 8),
+            "combinator kind {} evaluated {} times on one thread: {} results not as documented, closure invoked {} times",
+            c.kind % 8,
+            n,
+            wrong,
+            calls
+        );
+    }
+    Ok(())
+}
+
 pub fn check(k: &Case, obs: &mut Obs) -> CheckResult {
     if k.comb >= COMBINATORS.len()
         || !valid_inputs(k.comb).contains(&k.input)
@@ -869,6 +1003,16 @@ fn run(ctx: &Ctx) {
             n / 48
         ));
     }
+    // 2^32 + 1000 evaluations of one combinator per shard pair (both build profiles), and deep
+    // nesting around 64 KiB payloads.
+    if ctx.profile != "unopt" {
+        let kind = (ctx.shard / 2) as u8 % 8;
+        ctx.run_one("long-run", &LongRun { kind, iterations: (1u64 << 32) + 1000 }, check_long_run);
+        if ctx.shard < 12 {
+            let kind = [2u8, 3, 4, 5, 8, 9][(ctx.shard / 2) as usize % 6];
+            ctx.run_one("long-run", &LongRun { kind, iterations: 0 }, check_long_run);
+        }
+    }
     // Payload values drawn by proptest over the same finite skeleton.
     let strat = (
         0..COMBINATORS.len(),
@@ -898,6 +1042,13 @@ fn run(ctx: &Ctx) {
 
 fn replay(oracle: &str, v: &Value) -> Option<CheckResult> {
     match oracle {
+        "long-run" => {
+            let k: LongRun = match replay_from_file(v) {
+                Ok(k) => k,
+                Err(e) => return Some(Err(crate::engine::Failure::new("C15:decode", e))),
+            };
+            Some(check_long_run(&k, &mut Obs::default()))
+        }
         "enumerate-concurrent" => {
             let k: Case = match replay_from_file(v) {
                 Ok(k) => k,
